@@ -423,7 +423,7 @@ def h_linesearch_accept(E, cfg):
         ok = True
         rng = np.random.RandomState(1)
         for sc in (1.0, 1e-2, 1e-3, 30.0, 0.2):
-            for trial in range(4):
+            for trial in range(40):
                 Xc = (X + (rng.randn(*shp) * 0.5 if trial else 0)) * sc
                 Fc = [f + (rng.randn(*f.shape) * 0.5 if trial else 0) for f in F0]
                 try:
